@@ -244,15 +244,23 @@ def concrete_orders(mname: str, fkey: str, precall: bool) -> Tuple[bool, str]:
         phs = [n for n in res[0].original.graph.nodes if n.op == "placeholder"]
         base = {str(n.target): ex.detach().clone() for n, ex in zip(phs, res[0].example_inputs)}
         outs = []
+        orig_randint = torch.randint
+
+        def pinned(*a: Any, **k: Any) -> torch.Tensor:  # stochastic formats: every draw of both runs comes from the same pinned source
+            return orig_randint(*a, generator=torch.Generator().manual_seed(1234), **k)
+
         for cap in res:
             ph2 = [n for n in cap.original.graph.nodes if n.op == "placeholder"]
             lv = {k: (v.clone().requires_grad_(True) if v.is_floating_point() else v.clone()) for k, v in base.items()}
+            torch.randint = pinned  # type: ignore[assignment]
             try:
                 o = cap.rewritten(*[lv[str(n.target)] for n in ph2])
+                o = o[0] if isinstance(o, (tuple, list)) else o
+                gs = torch.autograd.grad(o, [v for v in lv.values() if v.is_floating_point()], torch.ones_like(o), allow_unused=True)
             except KeyError as e:
                 return True, f"graph inputs differ between the two orders: {e}"
-            o = o[0] if isinstance(o, (tuple, list)) else o
-            gs = torch.autograd.grad(o, [v for v in lv.values() if v.is_floating_point()], torch.ones_like(o), allow_unused=True)
+            finally:
+                torch.randint = orig_randint  # type: ignore[assignment]
             outs.append((o, gs))
         if not torch.equal(outs[0][0], outs[1][0]):
             bad.append(f"outputs of the two orders differ (max abs {(outs[0][0] - outs[1][0]).abs().max().item():.3g})")
